@@ -495,6 +495,7 @@ class Report:
             "wall_s": round(time.time() - self.t0, 2),
             "violations": len(self.violations),
         }
+        _check_evidence_shape(ev)
         if self.known:
             ev["coverage"]["known_findings_reported"] = self.known
         if self.notes:
@@ -507,6 +508,26 @@ class Report:
             print("VIOLATION property=%s replay=%s%s" % (self.prop, path, " no-failing-input-found" if noinput else ""))
         sys.stdout.flush()
         return 1 if self.violations else 0
+
+
+def _check_evidence_shape(ev):
+    """the typed keys of /root/.vp/EVIDENCE.schema.json (a wrong shape makes the evidence worthless)"""
+    cov = ev["coverage"]
+    for k in ("evaluations", "distinct_nontrivial", "states", "transitions", "traces_validated_against_impl",
+              "obligations", "discharged", "programs", "disagreements_checked"):
+        if k in cov and not (isinstance(cov[k], int) and not isinstance(cov[k], bool) and cov[k] >= 0):
+            raise Infra("evidence key coverage.%s must be a non-negative integer, got %r" % (k, cov[k]))
+    for k in ("checker_cmd", "explanation", "rule"):
+        if k in cov and not isinstance(cov[k], str):
+            raise Infra("evidence key coverage.%s must be a string" % k)
+    if "samples" in cov and not isinstance(cov["samples"], list):
+        raise Infra("evidence key coverage.samples must be a list")
+    if "trusted_base" in cov and not (isinstance(cov["trusted_base"], list) and all(isinstance(x, str) for x in cov["trusted_base"])):
+        raise Infra("evidence key coverage.trusted_base must be a list of strings")
+    if "exhaustive" in cov and not isinstance(cov["exhaustive"], bool):
+        raise Infra("evidence key coverage.exhaustive must be a boolean")
+    if not all(isinstance(x, str) for x in ev.get("assumptions", [])):
+        raise Infra("evidence key assumptions must be a list of strings")
 
 
 GENERIC_TRUSTED = [
